@@ -90,6 +90,10 @@ fn list_strategy(tier: Tier) -> BoxedStrategy<ListCase> {
                 let at = idx(j, names.len() + 1);
                 let n = names[k].clone();
                 names.insert(at, n);
+                // and now and then the pattern's own text is a candidate
+                if i % 4 == 0 {
+                    names.insert(idx(j, names.len() + 1), PATTERNS[p].to_string());
+                }
             }
             ListCase { pattern: PATTERNS[p].to_string(), names, orders }
         })
@@ -256,8 +260,18 @@ fn any_strategy(_t: Tier) -> BoxedStrategy<AnyCase> {
         1 => (crate::props::vergen::tokens(5)).prop_map(|t| format!("b-{}", t.concat().replace('-', ""))),
         1 => prop::collection::vec(any::<char>(), 0..6).prop_map(|v| v.into_iter().collect::<String>()),
     ];
-    (pat, nm.clone(), nm.clone(), nm)
-        .prop_map(|(pattern, a, b, c)| AnyCase { pattern, a, b, c })
+    (pat, nm.clone(), nm.clone(), nm, 0u8..18)
+        .prop_map(|(pattern, mut a, mut b, mut c, alias)| {
+            // now and then a candidate is the pattern's own text, or two candidates are the same
+            match alias {
+                0 => a = pattern.clone(),
+                1 => b = pattern.clone(),
+                2 => c = pattern.clone(),
+                3 => b = a.clone(),
+                _ => {}
+            }
+            AnyCase { pattern, a, b, c }
+        })
         .boxed()
 }
 
